@@ -219,6 +219,9 @@ func membOps(n int) []membOp {
 		membOp{kind: "update", ids: []string{"a", "b"}},
 		membOp{kind: "update", joins: []pt.JoinPlayer{jp("a", -1), jp("b", -1), jp("c", -1), jp("d", -1), jp("e", -1)}}, // more joins than seats on small tables
 		membOp{kind: "update", joins: []pt.JoinPlayer{jp("c", 0), jp("c", last)}},                                       // same id twice in one batch
+		membOp{kind: "update", joins: []pt.JoinPlayer{jp("c", -1)}, ids: []string{"a", "a"}},                            // leaver listed twice
+		membOp{kind: "update", joins: []pt.JoinPlayer{jp("c", -1), jp("d", -1)}, ids: []string{"a", "a"}},               // ... and one joiner too many on a full table
+		membOp{kind: "update", joins: []pt.JoinPlayer{jp("c", -1), jp("d", -1), jp("e", -1)}, ids: []string{"a", "b", "a"}},
 	)
 	return ops
 }
